@@ -370,6 +370,8 @@ def same(c, io, mo):
         a = untok(t[4])
         if a[0] == 'b58' and len(a[2]) != 20 and 'ERR' in (io, mo):
             return True                   # Base58 body of another length: accepted or refused by the string layer (C11 row 7)
+    if t[0] == 'aobj' and t[1] != t[3] and len(unhx(t[7])) != 20 and 'ERR' in (io, mo):
+        return True                       # foreign object whose Base58 body has another length: same string-layer question
     fi, fm = io.split(' '), mo.split(' ')
     if len(fi) != 4 or len(fm) != 4 or fi[:3] != fm[:3]:
         return False
@@ -378,6 +380,10 @@ def same(c, io, mo):
         return fi[3] == t[3]
     if m in ('ERR', '-'):
         return fi[3] == m
+    if m.startswith('bech:') and int(m.split(':')[2]) < 0:
+        # pubkeyhash_to_addr_bech32 took the first byte of a non-20/32/40-byte program for a version byte below OP_1:
+        # the string it writes is not an address of anything; only its existence is compared
+        return fi[3] not in ('ERR', '-')
     try:
         return fi[3] == addr_str(untok(m))
     except Exception:
@@ -520,6 +526,12 @@ def gen_cases(rng, tier):
                b'\x6a', b'\x6a\x14' + h20, b'\x6a\x00', b'\x00\x00', b'\x14' + h20, b'\x20' + h32, b'\x00\x20' + h32 + b'\x87',
                b'\x52\x14' + h20 + b'\x75', b'\xa9\x14' + h20 + b'\x87\x87', b'\x76\x76\xa9\x14' + h20 + b'\x88\xac',
                b'\x20' + h32 + b'\x75\x76\xa9\x14' + h20 + b'\x88\xac']
+        # programs of 34 bytes whose first two bytes look like a script header: the address encoder's
+        # "size 20, 32, 40 means no header" shortcut (inner program / bogus version / error branches)
+        for v in (1, 9):
+            for b0 in (0x00, 0x01, 0x30, 0x48, 0x4f, 0x50, 0x51, 0x60, 0x61, 0xff):
+                for b1 in (0x20, 0x21):
+                    bad.append(bytes([0x50 + v, 34, b0, b1]) + h32)
         for s in bad:
             add('script', N, 'out', hx(s))
         for _ in range(200 if big else 25):
